@@ -58,6 +58,17 @@ func TestC12Seq(t *testing.T) {
 			return pick(t, files, "file")
 		}
 		unalignedShrinks, regrown := map[int]bool{}, false
+		// data at an edge of the index structure, whole index runs of hole above it, cut below it, regrown, read
+		acts["runedge"] = func(t *rapid.T) {
+			if cut || room() < 12 {
+				t.Skip("case cut short, or no room")
+			}
+			before := g.ShrinkThenGrow
+			judge(t, g.RunEdge(t))
+			if g.ShrinkThenGrow && !before {
+				regrown = true
+			}
+		}
 		// fill: a run of pattern blocks
 		acts["fill"] = func(t *rapid.T) {
 			f := file(t)
